@@ -562,6 +562,41 @@ Section Proofs.
 
 
   (* ------------------------------------------------------------------------------------------------
+     unique keys in the three tables (the precondition of the removal effect theorems) are kept by every command,
+     provided the two external functions keep them *)
+  Definition tables_wf (st : state) : Prop :=
+    rib_wf (s_rib st) /\ fib_wf (s_fib st) /\ NoDup (map fst (s_strat st)).
+  Definition ext_wf : Prop :=
+    (forall r n f, rib_wf r -> fib_wf f -> fib_wf (rib_to_fib r n f)) /\
+    (forall id r f, rib_wf r -> fib_wf f -> rib_wf (fst (face_cleanup id r f)) /\ fib_wf (snd (face_cleanup id r f))).
+  Definition keeps_wf (st : state) (o : outcome) : Prop :=
+    ext_wf -> tables_wf st -> forall st' vs' r, o = Ok st' vs' r -> tables_wf st'.
+
+  Ltac wf_tac unf :=
+    intros [X1 X2] [W1 [W2 W3]] st' vs' r H; unf; cbv beta zeta in H; cases_of H; inv_ok H;
+    unfold tables_wf; proj_simpl;
+    try match goal with |- context [face_cleanup ?id ?a ?b] => destruct (X2 id a b W1 W2) end;
+    refine (conj _ (conj _ _));
+    eauto using rib_add_wf, rib_remove_wf, fib_insert_wf, fib_remove_wf, strat_set_nodup, strat_unset_nodup.
+  Lemma rib_module_keeps_wf st vs c : keeps_wf st (rib_module st vs c).
+  Proof. wf_tac ltac:(unf_rib H). Qed.
+  Lemma fib_module_keeps_wf st vs c : keeps_wf st (fib_module st vs c).
+  Proof. wf_tac ltac:(unf_fib H). Qed.
+  Lemma strat_module_keeps_wf st vs c : keeps_wf st (strat_module st vs c).
+  Proof. wf_tac ltac:(unf_strat H). Qed.
+  Lemma cs_module_keeps_wf st vs c : keeps_wf st (cs_module st vs c).
+  Proof. wf_tac ltac:(unf_cs H). Qed.
+  Lemma status_module_keeps_wf st vs c : keeps_wf st (status_module st vs c).
+  Proof. wf_tac ltac:(unf_status H). Qed.
+  Lemma face_module_keeps_wf st vs c : keeps_wf st (face_module st vs c).
+  Proof. wf_tac ltac:(unf_face H). Qed.
+  Theorem run_keeps_tables_wf st vs c : keeps_wf st (run st vs c).
+  Proof.
+    apply run_cases; try (intros HX HW st' vs' r H; first [discriminate H | inv_ok H; exact HW]);
+      auto using rib_module_keeps_wf, fib_module_keeps_wf, strat_module_keeps_wf, cs_module_keeps_wf, status_module_keeps_wf, face_module_keeps_wf.
+  Qed.
+
+  (* ------------------------------------------------------------------------------------------------
      all histories: from a state satisfying the invariants no command sequence panics, every step meets the step
      specification, and the invariants hold after every step *)
   Fixpoint run_trace (st : state) (vs : vers) (cs : list cmd) : option (list (state * cmd * resp * state)) :=
